@@ -30,5 +30,5 @@ MCPars == [maxFeeds : MaxFeedsSet, step : StepSet, minI : {MinI}, maxI : {MaxI},
 
 Sym == Permutations(Voter)
 Bound == h <= MaxH
-View == <<h, par, power, vote, total, idx, lock, feeds, lastUpd>>
+View == <<h, par, power, vote, total, idx, lock, feeds, lastUpd, fpar>>
 =============================================================================
